@@ -221,8 +221,10 @@ func c14(c *ev.Ctx) {
 	// (2b) the meaning of regexp literals, used in sequences with repeats and near-twins
 	// (same pattern with / without flags) across evaluators of one process
 	type reCase struct{ pat, flags string }
-	rePool := []reCase{{"zq-demo", "i"}, {"zq-demo", ""}, {"ZQ-DEMO", ""}, {"^line2$", "m"}, {"^line2$", ""}, {"a.c", ""}, {"a.c", "i"}, {"a\\.c", ""}, {"[0-9]+", ""}, {"x|y", ""}, {"h.llo", "im"}, {"^$", ""}, {"é", "i"}, {"É", ""}}
-	subjects := []string{"ZQ-DEMO", "zq-demo", "line1\nline2", "LINE2", "abc", "a.c", "ABC", "12", "", "héllo", "HÉLLO", "x", "É", "é"}
+	rePool := []reCase{{"zq-demo", "i"}, {"zq-demo", ""}, {"ZQ-DEMO", ""}, {"^line2$", "m"}, {"^line2$", ""}, {"a.c", ""}, {"a.c", "i"}, {"a\\.c", ""}, {"[0-9]+", ""}, {"x|y", ""}, {"h.llo", "im"}, {"^$", ""}, {"é", "i"}, {"É", ""},
+		// a group or inline flags first, holding characters of more than one byte
+		{"(?:é)", ""}, {"(?:狐|犬)+", ""}, {"(?i:É)x?", ""}, {"(?:ÄÖ|é)", "i"}, {"(?P<n>ü|é)", ""}, {"(?s)h.llo", ""}}
+	subjects := []string{"ZQ-DEMO", "zq-demo", "line1\nline2", "LINE2", "abc", "a.c", "ABC", "12", "", "héllo", "HÉLLO", "x", "É", "é", "狐犬", "äö", "ü"}
 	n = c.Pick(300, 20000)
 	c.ParFor(n, func(i int) {
 		id := fmt.Sprintf("remean/%d", i)
